@@ -498,6 +498,17 @@ pub fn run(ctx: &Ctx, rep: &mut Report) {
         }
         rep.add_space("long texts: k filler tokens (junk / one repeated card / the cycling deck) then a new card, k = 0..=300 and 2^m - 1, 2^m, 2^m + 1 up to 65,537", &acc, t0, "a token cap or buffer limit shows only past the cap");
     }
+    // (d4) call histories over a small alphabet of tokens and hand strings
+    {
+        let mut items = Vec::new();
+        for t in ["AS", "as", "A♠", "KS", "kh", "0c", "T♦", "XX", "A", "", "1s", "\u{212A}S", "2♣zz", "SA", "9♧"] {
+            items.push(Case::text("token", t, &[]));
+        }
+        for h in ["AS KS", "AS KS QS JS TS", "AS KS QS JS TS 9S", "AS KS QS JS TS 9S 8S", "AS XX", "AS", "", "KD QD JD TD 9D 8D 7D", "  AS   KS  ", "AS\u{3000}KS\u{3000}QS"] {
+            items.push(Case::text("hand", h, &[]));
+        }
+        super::history2(rep, judge, &items);
+    }
     // (e) round trip
     {
         let t0 = Instant::now();
